@@ -88,9 +88,16 @@ def _canon_tree(tree: ast.AST) -> None:
       ``x = E`` directly followed by ``return x`` (x used nowhere else in the function)  ->  ``return E``
       ``x = <bool expr>`` directly followed by ``if x:`` / ``if not x:`` (x used nowhere else)  ->  ``if <bool expr>:``
       ``if not c: B else: A``  ->  ``if c: A else: B``   (elif chains are left alone)
+      ``a < b`` -> ``b > a`` and ``a <= b`` -> ``b >= a``
 
     (the inverses of "name the result before returning it", "name the condition before testing
     it" and "put the other branch first").  In place."""
+    # `a < b` is written `b > a`, `a <= b` as `b >= a` (single comparisons; for the analysis the
+    # order in which the two operands are evaluated is immaterial)
+    for n in ast.walk(tree):
+        if isinstance(n, ast.Compare) and len(n.ops) == 1 and isinstance(n.ops[0], (ast.Lt, ast.LtE)):
+            n.left, n.comparators[0] = n.comparators[0], n.left
+            n.ops[0] = ast.Gt() if isinstance(n.ops[0], ast.Lt) else ast.GtE()
     for fn in ast.walk(tree):
         if not isinstance(fn, (ast.FunctionDef, ast.AsyncFunctionDef)):
             continue
@@ -105,11 +112,6 @@ def _canon_tree(tree: ast.AST) -> None:
                 blk = getattr(n, fld, None)
                 if isinstance(blk, list):
                     for a, b in zip(blk, blk[1:]):
-                        if isinstance(a, ast.Assign) and len(a.targets) == 1 and isinstance(a.targets[0], ast.Name) and isinstance(b, ast.Return) and isinstance(b.value, ast.Name) and b.value.id == a.targets[0].id:
-                            pair_uses[b.value.id] = pair_uses.get(b.value.id, 0) + 2
-            if isinstance(n, ast.Try):
-                for h in n.handlers:
-                    for a, b in zip(h.body, h.body[1:]):
                         if isinstance(a, ast.Assign) and len(a.targets) == 1 and isinstance(a.targets[0], ast.Name) and isinstance(b, ast.Return) and isinstance(b.value, ast.Name) and b.value.id == a.targets[0].id:
                             pair_uses[b.value.id] = pair_uses.get(b.value.id, 0) + 2
         only_pairs = {k for k, v in pair_uses.items() if uses.get(k) == v}
